@@ -62,6 +62,12 @@ func repoShape(name string) repoLayout {
 		l.Parent = map[string]string{"r": "", "s": "r", "l": ""}
 		l.Path = map[string]string{"r": "r.json", "s": "s.yaml", "l": "other/l.yaml"}
 		l.Alt = map[string][]string{"s": {"r"}, "l": {"", "s"}}
+	case "deep":
+		// four tiers: a reason at the root has to reach the great-grandchild (MCRepo: DeepParent, DeepAlt)
+		l.Ents = []string{"r", "s", "m", "l"}
+		l.Parent = map[string]string{"r": "", "s": "r", "m": "s", "l": "m"}
+		l.Path = map[string]string{"r": "r.yaml", "s": "ca/s.yml", "m": "ca/issuing/m.yaml", "l": "ee/l.json"}
+		l.Alt = map[string][]string{"m": {"s", "r"}, "l": {"m", "s"}}
 	}
 	return l
 }
@@ -75,7 +81,7 @@ func (l repoLayout) artPath(e string) string {
 // change anybody else's configuration)
 func isCA(e string) bool { return e != "l" }
 
-var repoFeature = map[string]string{"r": "static", "s": "relative", "l": "manip"}
+var repoFeature = map[string]string{"r": "static", "s": "relative", "m": "relative", "l": "manip"}
 
 const repoProfilePath = "profiles/shared.yaml"
 
@@ -1037,7 +1043,7 @@ func init() { commands["repo"] = cmdRepo }
 
 func cmdRepo(args []string) int {
 	fs := flag.NewFlagSet("repo", flag.ExitOnError)
-	shape := fs.String("shape", "chain", "chain|star|two")
+	shape := fs.String("shape", "chain", "chain|star|two|deep")
 	maxEnv := fs.Int("max-env", 2, "bound on environment actions along a path")
 	flagSets := fs.String("flagsets", "m,c,o", "flags whose subsets are the run alphabet (e.g. m,c,o)")
 	extraSets := fs.String("extra-flagsets", "", "additional flag sets, ';'-separated, e.g. 'a;m,c,e'")
@@ -1137,7 +1143,7 @@ func cmdRepo(args []string) int {
 
 	if *randomWalks > 0 {
 		for i := 0; i < *randomWalks; i++ {
-			wd := &repoWorld{l: l, fs: world.fs.Clone(), cfgc: map[string]int{"r": 0, "s": 0, "l": 0}, par: map[string]string{}, gone: map[string]bool{}, uses: map[string]bool{}, prof: 0}
+			wd := &repoWorld{l: l, fs: world.fs.Clone(), cfgc: map[string]int{"r": 0, "s": 0, "m": 0, "l": 0}, par: map[string]string{}, gone: map[string]bool{}, uses: map[string]bool{}, prof: 0}
 			for _, e := range l.Ents {
 				wd.par[e] = l.Parent[e]
 				if world.uses[e] {
